@@ -4,6 +4,7 @@
 mod conformance;
 mod core;
 mod engc;
+mod flood;
 mod fds;
 mod enga;
 mod gen;
